@@ -38,7 +38,8 @@ Import ListNotations. Open Scope Z_scope.
 VOLATILE = ("action-start-time".encode().hex(), "host-name".encode().hex())
 METHODS = {"actAlpha": ("Prepare", "Commit", "Rollback"), "actBeta": ("Prepare", "Commit", "Rollback"),
            "actTagged": ("Try", "Confirm", "Cancel")}
-CODES = {1: "prepare events (registration / try)", 2: "prepare result", 3: "phase-two events (invocation / response)"}
+CODES = {1: "prepare events (registration / try)", 2: "prepare result", 3: "phase-two events (invocation / response)",
+         4: "events of a sequence of prepares on one context", 5: "results of a sequence of prepares on one context"}
 
 
 def hx(s):
@@ -185,9 +186,24 @@ def p_term(c):
         "true" if c["outcome"] == "ok" else "false")
 
 
+def reply_term(c):
+    return {"ok": "(ROk %d)" % c["bid"], "failcode": "RFailCode", "error": "RError"}[c["reg_mode"]]
+
+
+def s_term(group):
+    """several prepares on ONE context (one global transaction): all events in order against prepare_seq"""
+    evs = []
+    for c in group:
+        evs += c["events"] or []
+    items = coq_list(["(%s, %s, %s)" % (action_term(c["_name"]), fields_term(c.get("fields")), reply_term(c)) for c in group])
+    oks = coq_list(["true" if c["outcome"] == "ok" else "false" for c in group])
+    return "(TS (mkSC %s %s %s %s %s))" % ("true" if group[0]["in_gtx"] else "false", hx(group[0]["xid"]), items, pevents(evs)[0], oks)
+
+
 def q_term(c, names):
-    req = "(mkQ %s %s %s %s %s %s %s)" % ("true" if c["method"] == "commit" else "false", hx(c["resource"]), hx(c["xid"]),
-                                          z(c["branch"]), z(c["msg_id"]), app_term(c), "true" if c["user_fails"] else "false")
+    req = "(mkQ %s %s %s %s %s %s %s %s)" % ("true" if c["method"] == "commit" else "false", hx(c["resource"]), hx(c["xid"]),
+                                             z(c["branch"]), z(c["msg_id"]), app_term(c), "true" if c["user_fails"] else "false",
+                                             "true" if c.get("user_bool", True) else "false")
     return "(TQ (mkQC %s %s %s))" % (coq_list([hx(n) for n in names]), req, qevents(c))
 
 
@@ -208,6 +224,8 @@ def malformed(c):
 
 
 def slim(c):
+    if "prepares" in c:
+        return {"prepares": [slim(x) for x in c["prepares"]]}
     c = {k: v for k, v in c.items() if not k.startswith("_")}
     if c.get("detail"):
         c["detail"] = c["detail"][:300]
@@ -242,8 +260,15 @@ def run(chk, replay_case=None):
     listed = {f["pred"] for f in findings}
     clean_q = [c for c in phase2 if not (malformed(c) and "tcc.appdata.malformed" in listed)]
     known_q = [c for c in phase2 if malformed(c) and "tcc.appdata.malformed" in listed]
-    cases = [("p", c) for c in prepares] + [("q", c) for c in clean_q]
-    terms = [p_term(c) if k == "p" else q_term(c, names) for k, c in cases]
+    groups = {}
+    for c in prepares:
+        groups.setdefault(c.get("seq", id(c)), []).append(c)
+    for g in groups.values():
+        for i, c in enumerate(g):
+            c["_prefix"] = g[:i]
+    seqs = [{"oracle": "", "prepares": g, "outcome": "ok"} for g in groups.values() if len(g) >= 2]
+    cases = [("p", c) for c in prepares] + [("q", c) for c in clean_q] + [("s", c) for c in seqs]
+    terms = [p_term(c) if k == "p" else q_term(c, names) if k == "q" else s_term(c["prepares"]) for k, c in cases]
     mism = vlib.eval_mismatches("C05", HEADER, terms, case_type="tcase", shard=150)
     # ---- finding stream: committed replay + this run's variants
     for f in findings:
@@ -268,15 +293,16 @@ def run(chk, replay_case=None):
             continue
         seen.add(cls)
         chk.violation("tcc %s: %s" % ("prepare" if k == "p" else "phase two", c["oracle"][:300]),
-                      {"case": slim(c), "kind": k, "model_disagreements": [CODES[e] for e in mism.get(i, [])]}, True)
+                      {"case": slim(c), "kind": k, "prefix": [slim(x) for x in c.get("_prefix", [])],
+                       "model_disagreements": [CODES[e] for e in mism.get(i, [])]}, True)
     if not oracle_fail and (corr_fail or vol_missing):
         i = (corr_fail or vol_missing)[0]
         k, c = cases[i]
         what = ", ".join(CODES[e] for e in mism.get(i, [])) or "action-start-time / host-name missing from the registered context"
-        real = k == "p" and 1 in mism.get(i, [])
+        real = k in ("p", "s") and any(e in (1, 4) for e in mism.get(i, []))
         chk.violation("the tcc code no longer behaves like the model the theorems are about (%s)%s" % (
             what, ": the registered application data / event order differs from the tagged parameters" if real else ""),
-            {"case": slim(c), "kind": k, "correspondence": "Tcc/TccCases.v check_case",
+            {"case": slim(c), "kind": k, "prefix": [slim(x) for x in c.get("_prefix", [])], "correspondence": "Tcc/TccCases.v check_case",
              "model_disagreements": [CODES[e] for e in mism.get(i, [])], "mismatching_cases": len(corr_fail)}, real)
     if not pr["ok"] and not chk.violations:
         chk.violation("proof obligation of C05 no longer checks on the table regenerated from tcc_resource.go / the processors",
@@ -285,6 +311,8 @@ def run(chk, replay_case=None):
                        "coq_output": pr["out"][-1500:]}, False)
 
     def nontrivial(k, c):
+        if k == "s":
+            return c["prepares"][0]["in_gtx"]
         if k == "p":
             return c["in_gtx"] and any(f["exported"] and f["has_tag"] for f in c.get("fields") or [])
         return c["known"]
@@ -292,13 +320,15 @@ def run(chk, replay_case=None):
     chk.coverage.update({
         "trusted_base": TRUSTED,
         "evaluations": len(cases) + len(known_q),
-        "distinct_nontrivial": vlib.distinct([(k, slim(c).get("fields"), slim(c).get("app_data"), c.get("method"), c.get("user_fails"),
+        "distinct_nontrivial": vlib.distinct([(k, [(x.get("action"), x.get("fields"), x.get("reg_mode")) for x in c["prepares"]]) if k == "s" else (k, slim(c).get("fields"), slim(c).get("app_data"), c.get("method"), c.get("user_fails"),
                                                c.get("reg_mode"), c.get("resource")) for k, c in cases if nontrivial(k, c)]),
-        "rule": "%d generated prepare calls through the real TCCServiceProxy (3 registered services, one declared by struct tags; "
+        "rule": "%d generated prepare calls through the real TCCServiceProxy, grouped into global transactions of 1-4 prepares on ONE "
+                "context (the same action again or different actions; also compared as sequences) (3 registered services, one declared by struct tags; "
                 "parameter = nil / tagged / pointer / mixed (untagged, '-', '', unexported, []byte, uint64) / nested structs, "
                 "slices, maps / embedded and pointer BusinessActionContext / duplicate and system-colliding tags / non-struct / "
-                "reflect.StructOf-generated types; 10%% outside a global transaction, 20%% registration failures), each followed by "
-                "1-3 phase-two requests through the real processors (commit or rollback, 25%% user failures, repeated requests, "
+                "two pairs of DISTINCT same-named types (function-local; same package and type name under two paths), always "
+                "both prepared in one process / reflect.StructOf-generated types; 10%% outside a global transaction, 20%% registration failures), each followed by "
+                "1-3 phase-two requests through the real processors (commit or rollback, user methods returning every (bool, error) combination, repeated requests, "
                 "unknown resources, another action's data, empty / context-free / malformed application data). Non-trivial = a "
                 "prepare in a global transaction with at least one tagged exported field, or a request for a registered resource; "
                 "distinct by inputs" % n,
@@ -319,4 +349,7 @@ def replay(chk, path):
     if "case" not in r or "kind" not in r:
         print("replay names a proof obligation, not an input: " + json.dumps(r)[:400])
         return run(chk)
-    return run(chk, replay_case={"kind": r["kind"], "case": r["case"]})
+    if r["kind"] == "s":
+        ps = r["case"]["prepares"]
+        return run(chk, replay_case={"kind": "p", "case": ps[-1], "prefix": ps[:-1]})
+    return run(chk, replay_case={"kind": r["kind"], "case": r["case"], "prefix": r.get("prefix", [])})
